@@ -23,6 +23,10 @@ pub struct BlockS {
     /// first (only with `calls_super`)
     #[serde(default)]
     pub call_before_super: bool,
+    /// the block body is EMPTY (`{% block b %}{% endblock b %}`: a chunk without instructions); only
+    /// for blocks without super(), includes and nested blocks
+    #[serde(default)]
+    pub empty: bool,
 }
 
 #[derive(Clone, Debug, Default, Serialize, Deserialize, PartialEq, Eq, Hash)]
@@ -68,6 +72,13 @@ impl TplS {
     fn block_source(&self, b: &BlockS, out: &mut String) {
         if b.in_filter {
             out.push_str("{% filter upper %}");
+        }
+        if b.empty {
+            out.push_str(&format!("{{% block {} %}}{{% endblock {} %}}", b.name, b.name));
+            if b.in_filter {
+                out.push_str("{% endfilter %}");
+            }
+            return;
         }
         // the marker carries the tag too, so that a re-registered version has different block bodies
         out.push_str(&format!("{{% block {} %}}[{}@{}{}:", b.name, b.name, mark(&self.name), mark(&self.tag)));
